@@ -16,10 +16,13 @@ struct CsdoRun : NodeEnv {
         Expect exp = E_NONE; uint32_t expCode = 0; int callbacks = 0; bool pendingFrame = false; Frame pending;
     };
     Client c[CO_CSDO_N]; std::vector<int> appTimers; int nCsdo = CO_CSDO_N; int m = 2;
-    CsdoRun(const Plan &p, Cov &cv, bool vb) : NodeEnv(p, cv, vb) {}
+    CsdoRun(const Plan &p, Cov &cv, bool vb) : NodeEnv(p, cv, vb) { self = this; }
     bool tight = false;
     static void appCb(void *) {}
-    static void doneCb(CO_CSDO *csdo, uint16_t index, uint8_t sub, uint32_t code) { if (W) W->ev(EV_CSDODONE, (int64_t)(csdo - W->S().node->CSdo), ((int64_t)index << 8) | sub, (int64_t)code); }
+    // completion callback: logs; when armed by 'cbtimer' the application starts a (long, periodic) timer of its own from inside it - e.g. a retry timer after a failed transfer
+    static void doneCb(CO_CSDO *csdo, uint16_t index, uint8_t sub, uint32_t code) { if (!W) return; W->ev(EV_CSDODONE, (int64_t)(csdo - W->S().node->CSdo), ((int64_t)index << 8) | sub, (int64_t)code);
+        CsdoRun *g = self; if (g && !g->tight && g->cbTimerArmed > 0 && g->appTimers.size() < 5) {   /* capacity is assumed by the property: not in the tight configuration */ g->cbTimerArmed--; int16_t id = COTmrCreate(&W->S().node->Tmr, 1000000, 1000000, appCb, nullptr); if (id >= 0) { g->appTimers.push_back(id); for (auto &x : g->c) x.slotsBefore++; g->cov.hit(code == 0x05040000 ? "timer-created-from-the-completion-callback-of-a-time-out" : "timer-created-from-the-completion-callback"); g->nontrivial = true; } else (void)CONodeGetErr(W->S().node); } }
+    static CsdoRun *self; int cbTimerArmed = 0;
     uint32_t txId(int n) { return 0x600u + SRV + (uint32_t)n * 0x10; }
     uint32_t rxId(int n) { return 0x580u + SRV + (uint32_t)n * 0x10; }
     void build() {
@@ -32,7 +35,7 @@ struct CsdoRun : NodeEnv {
         if (CONodeGetErr(N()) != CO_ERR_NONE) fail("setup/node-error", "node reports an error after initialisation");
     }
     void freeBuf(Client &x) { if (x.buf) { free(x.buf); x.buf = nullptr; } }
-    ~CsdoRun() { for (auto &x : c) freeBuf(x); }
+    ~CsdoRun() { self = nullptr; for (auto &x : c) freeBuf(x); }
 
     // ---- completion callbacks and client frames of one operation
     void harvest(size_t mk, const char *what) {
@@ -152,6 +155,7 @@ struct CsdoRun : NodeEnv {
             // an abort that names another object is not an answer to this transfer (e.g. a late abort of an earlier one): an expedited transfer must go on unaffected
             bool foreignAbort = wasBusy && r.d[0] == 0x80 && (r.u16(1) != c[n].idx || r.d[3] != c[n].sub) && c[n].size <= 4 && !c[n].malformed;
             if (foreignAbort) { cov.hit("foreign-abort-during-expedited-transfer"); nontrivial = true; } else if (wasBusy) { c[n].malformed = true; c[n].exp = E_ANY; } w.rx(0, r); w.canproc(0); cov.frames_in++; harvest(mk, "unsolicited server frame"); cov.hit(wasBusy ? "unsolicited-while-busy" : "unsolicited-while-idle"); }
+        else if (k == "cbtimer") { cbTimerArmed = (int)(o.arg(0) % 3) + 1; }
         else if (k == "apptmr") { w.cur = 0; if (tight) return; if (o.arg(0) && appTimers.size() >= 5) return;   /* capacity is assumed by the property: 8 slots = 5 application timers + 2 clients + 1 spare */
             if (o.arg(0)) { int16_t id = COTmrCreate(&N()->Tmr, (uint32_t)o.arg(1), (uint32_t)o.arg(2) + 1, appCb, nullptr); if (id >= 0) { appTimers.push_back(id); for (auto &x : c) x.slotsBefore++; } } else if (!appTimers.empty()) { (void)COTmrDelete(&N()->Tmr, (int16_t)appTimers.back()); appTimers.pop_back(); for (auto &x : c) x.slotsBefore--; } }
         else if (k == "nmt") { uint8_t cs = (uint8_t)o.arg(0); for (auto &x : c) if (x.busy && (cs == 129 || cs == 130)) { x.exp = E_ANY; cov.hit("reset-while-busy"); nontrivial = true; } w.rx(0, Frame(0, 2, {cs, 0})); w.canproc(0); harvest(mk, "NMT command");
@@ -180,6 +184,7 @@ Plan gen_csdo(Rng &r, bool thorough) {
         int64_t size = r.chance(1, 3) ? r.range(1, 8) : r.chance(1, 3) ? r.pick<int64_t>({13, 14, 15, 255, 256, 257, 262, 263, 264, 511, 512, 519, 520}) : r.chance(1, 2) ? r.range(1, 300) : r.range(1, 2000);
         int64_t tmo = r.pick<int64_t>({10, 20, 50, 100, 500}); int64_t beh = r.chance(1, 2) ? 0 : (int64_t)r.below(B_N); int64_t k = r.below(6);
         if (r.chance(1, 6)) p.ops.push_back(Op("apptmr", {1, r.range(1, 30), r.range(0, 20)}));
+        if (r.chance(1, 5)) p.ops.push_back(Op("cbtimer", {(int64_t)r.below(3)}));
         p.ops.push_back(Op("req", {n, up ? 1 : 0, size, tmo, beh, k, (int64_t)(r.below(4) | r.below(3) << 8), (int64_t)r.below(1000), r.pick<int64_t>({0, 0x06020000, 0x08000000, 0x05040001, 1, 2, 0x60, 0x41, 0x00, 0xFF})}));
         int mode = (int)r.below(10);
         if (mode < 5) p.ops.push_back(Op("run", {n}));
@@ -193,6 +198,7 @@ Plan gen_csdo(Rng &r, bool thorough) {
     }
     return p;
 }
+CsdoRun *CsdoRun::self = nullptr;
 Reg r19({"csdo", "C19", gen_csdo, [](const Plan &p, Cov &c, bool vb) { CsdoRun x(p, c, vb); return x.run(); }, nullptr, nullptr});
 
 } // namespace
